@@ -526,3 +526,23 @@ brk("c19_detached_task_in_empty_context", [E("context.tasks.TaskGroupContext.run
 brk("c19_trial_rendering", [E(f"{SMx}.log", lambda n: isinstance(n, ast.Expr) and "self._logger.log" in U(n), before("if args:" + NL + "    try:" + NL + "        message % args" + NL + "    except (TypeError, ValueError):" + NL + "        return"))], {"C19": ["C19.5"]})
 ben("c06_optional_group_argument", [E("context.tasks.TaskGroupContext.__init__", lambda n: isinstance(n, ast.FunctionDef), lambda s: s.replace("def __init__(\n        self,\n    )", "def __init__(\n        self,\n        group: TaskGroup | None = None,\n    )").replace("self._group: TaskGroup = TaskGroup()", "self._group: TaskGroup = group if group is not None else TaskGroup()"))], ["C06", "C07", "C02"])
 ben("c17_assert_restates_registration", [E("utils.queue.AsyncQueue.__anext__", stmt("self._waiting = None"), before("assert self._waiting is waiting"))], ["C17"])
+
+# =============================================================================================== rounds 6-7 and sweep v3 additions
+brk("c15_purge_boundary_strict", [E("helpers.throttling._AsyncThrottle.__call__", lambda n: isinstance(n, ast.Compare) and "self._period" in U(n) and "time_now" in U(n), sub("<=", "<"))], {"C15": ["C15.5"]})
+brk("c05_specialisation_not_cached", [E(f"{STS}.__class_getitem__", stmt_has("_types_cache["), PASS)], {"C05": ["C05.14"], "C04": ["C04.11"]})
+brk("c05_union_alternatives_sorted", [E("state.validation._prepare_validator_of_union", lambda n: isinstance(n, ast.ListComp) and "attribute_validator" in U(n), lambda s: s.replace("in annotation.arguments", "in sorted(annotation.arguments, key=str)"))], {"C05": ["C05.5"], "C04": ["C04.10"]})
+brk("c05_literal_by_identity", [E("state.validation._prepare_validator_of_literal.validator", lambda n: isinstance(n, ast.Compare), to("any(value is element for element in elements)"))], {"C05": ["C05.9"]})
+for _c in ("__call__", "__method_call__"):
+    brk(f"c13_move_to_end_after_wait_{_c}", [E(f"helpers.caching._AsyncCache.{_c}", stmt("self._cached.move_to_end(key)"), PASS), E(f"helpers.caching._AsyncCache.{_c}", lambda n: isinstance(n, ast.Return) and "entry[0]" in U(n), lambda s: "result = await shield(entry[0])" + NL + "self._cached.move_to_end(key)" + NL + "return result")], {"C13": ["C13.8"]})
+    brk(f"c13_failed_entry_dropped_by_key_{_c}", [E(f"helpers.caching._AsyncCache.{_c}", lambda n: isinstance(n, ast.Return) and U(n) == "return await shield(task)", lambda s: "try:" + NL + "    " + s + NL + "except Exception:" + NL + "    del self._cached[key]" + NL + "    raise")], {"C13": ["C13.7"], "C12": ["C12.4"]})
+brk("c11_stream_scope_carries_state", [E("context.access.ctx.stream", lambda n: isinstance(n, ast.Call) and U(n.func) == "ctx.scope", lambda s: s.rstrip()[:-1].rstrip().rstrip(",") + ", *args)")], {"C11": ["C11.5"]})
+brk("c16_loop_remembered_on_wrapper", [E("helpers.timeouted._AsyncTimeout.__call__", stmt("loop: AbstractEventLoop = get_running_loop()"), to("loop: AbstractEventLoop = getattr(self, '_loop_', None) or get_running_loop()" + NL + "self._loop_ = loop"))], {"C16": ["C16.6"]}, note="(assignment to a frozen-free wrapper attribute: compiles, and the first call fixes the loop)")
+for kind, fq in (("sync", "helpers.tracing._traced_sync.traced"), ("async", "helpers.tracing._traced_async.traced")):
+    brk(f"c18_failure_recorded_outside_scope_{kind}", [E(fq, lambda n: isinstance(n, (ast.With, ast.AsyncWith)), lambda s: "try:" + NL + "    " + s.replace("\n", "\n    ").replace("except BaseException as exc:", "except ZeroDivisionError as exc:") + NL + "except BaseException as exc:" + NL + "    ctx.record(ResultTrace.of(exc))" + NL + "    raise exc")], {"C18": ["C18.4"]})
+brk("c01_lookup_tests_truthiness", [E("context.state.ScopeState.state", lambda n: isinstance(n, ast.If) and "in self._state" in U(n.test), lambda s: s.replace("if state in self._state:", "if self._state.get(state):", 1))], {"C01": ["C01.2"], "C03": ["C03.9"]})
+for _c in ("__call__", "__method_call__"):
+    brk(f"c12_hit_tests_cached_value_{_c}", [E(f"helpers.caching._SyncCache.{_c}", lambda n: isinstance(n, ast.Return) and U(n) == "return entry[0]", to("if entry[0] is not None:" + NL + "    return entry[0]"))], {"C12": ["C12.3"]})
+brk("c19_prefix_escaped_once", [E(f"{SMx}.log", lambda n: isinstance(n, ast.IfExp), to("self._logger_prefix.replace('%', '%%')"))], {"C19": ["C19.6"]})
+ben("c08_early_exit_without_disposables", [E("context.disposables.Disposables.__aexit__", lambda n: isinstance(n, ast.AnnAssign) and "gather" in U(n), before("if not self._disposables:" + NL + "    return"))], ["C08", "C01", "C02"])
+ben("c10_record_handler_reraises_non_exception", [E("context.metrics.MetricsContext.record", handler("Exception"), lambda s: s.replace("except Exception as exc:", "except BaseException as exc:" + "\n" + " " * 12 + "if not isinstance(exc, Exception):" + "\n" + " " * 16 + "raise", 1))], ["C10", "C14"])
+ben("c06_reraise_only_wrapper", [E("context.tasks.TaskGroupContext.__aenter__", stmt("await self._group.__aenter__()"), lambda s: "try:" + NL + "    " + s + NL + "except BaseException:" + NL + "    raise")], ["C06", "C07", "C02"])
